@@ -527,6 +527,38 @@ impl<
     }
 }
 
+// Accessors for verification harnesses (compiled only with --cfg sux_verif)
+#[cfg(sux_verif)]
+impl<const NUM_U32S: usize, const COUNTER_WIDTH: usize> Block32Counters<NUM_U32S, COUNTER_WIDTH> {
+    /// Returns the absolute counter and the raw relative words.
+    pub fn verif_parts(&self) -> (u32, [u32; NUM_U32S]) {
+        (self.absolute, self.relative)
+    }
+}
+
+#[cfg(sux_verif)]
+impl<
+        const NUM_U32S: usize,
+        const COUNTER_WIDTH: usize,
+        B,
+        C1: AsRef<[usize]>,
+        C2: AsRef<[Block32Counters<NUM_U32S, COUNTER_WIDTH>]>,
+    > RankSmall<NUM_U32S, COUNTER_WIDTH, B, C1, C2>
+{
+    /// Returns (upper counts, (absolute, relative words) of every block, number of ones).
+    pub fn verif_parts(&self) -> (Vec<usize>, Vec<(u32, Vec<u32>)>, usize) {
+        (
+            self.upper_counts.as_ref().to_vec(),
+            self.counts
+                .as_ref()
+                .iter()
+                .map(|c| (c.absolute, c.relative.to_vec()))
+                .collect(),
+            self.num_ones,
+        )
+    }
+}
+
 #[cfg(test)]
 mod tests {
 
